@@ -164,6 +164,9 @@ func verifWalk(vc verifCase, res *verifResult, settle func()) {
 		case "cancelled":
 			return CacheMiss, fmt.Errorf("interrupted: %w", context.Canceled)
 		}
+		if i < len(vc.FailKind) && vc.FailKind[i] == "spurious-cancel" {
+			return CacheMiss, fmt.Errorf("remote cache: %w", context.Canceled)
+		}
 		if i < len(vc.FailKind) && vc.FailKind[i] == "deadline" {
 			return CacheMiss, fmt.Errorf("timeout after 1s: %w", context.DeadlineExceeded)
 		}
